@@ -261,6 +261,7 @@ func main() {
 func runCube(prog *ssa.Program, pkg *ssa.Package, fn *ssa.Function, modPath string, consts map[string]int64, op *options,
 	infos map[*ssa.Function]*fnInfo, fnsSeen map[string]bool, stubs map[string]bool, keep string, cubeIdx int64) *RunResult {
 	res := &RunResult{Consts: consts}
+	allocShared = false
 	ex := &Exec{prog: prog, modPath: modPath, loopBound: op.loopBound, depthMax: op.depthMax,
 		infos: infos, globals: map[*ssa.Global]*Obj{},
 		sizes: &types.StdSizes{WordSize: 8, MaxAlign: 8}, fnsSeen: fnsSeen, consts: consts,
@@ -285,7 +286,9 @@ func runCube(prog *ssa.Program, pkg *ssa.Package, fn *ssa.Function, modPath stri
 		}()
 		if initFn := pkg.Func("init"); initFn != nil {
 			root := &Frame{fn: initFn, panicked: FF}
+			allocShared = true
 			ex.callFn(root, initFn, nil, nil, TT)
+			allocShared = false
 		}
 		ex.stackDepth = 0
 		ex.call(fn, nil, nil, TT, nil)
